@@ -28,8 +28,14 @@ G = "ramses_rf.gateway"
 def check(ctx: Ctx) -> list[RuleResult]:
     repo = ctx.repo
     out: list[RuleResult] = []
-    wm = repo.func(f"{G}.Gateway.get_state.wanted_msg")
-    cfg = ctx.plain_cfg(wm)
+    # the snapshot's admission filter: the predicate get_state calls with include_expired (a closure or a module-level helper)
+    from .common import module_scope
+
+    gs0 = repo.func(f"{G}.Gateway.get_state")
+    filt = [g for g in module_scope(ctx, gs0) if g is not gs0 and "include_expired" in [a.arg for a in g.node.args.args + g.node.args.kwonlyargs] and any(isinstance(c, ast.Call) and ((isinstance(c.func, ast.Name) and c.func.id == g.name) or (isinstance(c.func, ast.Attribute) and c.func.attr == g.name)) for c in own_nodes(gs0.node))]
+    if len(filt) != 1:
+        raise AnalysisError(f"get_state: the admission filter (a predicate taking include_expired) was not found uniquely: {[g.short for g in filt]}")
+    wm = filt[0]
 
     # ---- R1 ---------------------------------------------------------------------------
     # The filter only compares msg.verb / msg.code with constants and tests two flags, so its complete decision table is
@@ -74,7 +80,7 @@ def check(ctx: Ctx) -> list[RuleResult]:
         r1.instances += 1
         r1.nontrivial += 1
         if str(c) in by_code:
-            r1.fail(f"{wm.short}:expired-admitted:msg.code={c}", wm.loc(), f"an expired packet is admitted although include_expired is False: {tab.describe(by_code[str(c)])}")
+            r1.fail(f"get_state-admission-filter:expired-admitted:msg.code={c}", wm.loc(), f"an expired packet is admitted although include_expired is False: {tab.describe(by_code[str(c)])}")
         else:
             r1.ok({"code": str(c), "expired_admitted_unasked": False})
     out.append(r1)
@@ -95,7 +101,10 @@ def check(ctx: Ctx) -> list[RuleResult]:
     r2.instances += 1
     r2.nontrivial += 1
     t = norm(fd.node)
-    if "cls._partition(pkt_line)" in t and "dt.fromisoformat(dtm)" in t:
+    fd_params = [a.arg for a in fd.node.args.args if a.arg not in ("cls", "self")]
+    part = [c for c in own_nodes(fd.node) if isinstance(c, ast.Call) and isinstance(c.func, ast.Attribute) and c.func.attr == "_partition" and c.args and len(fd_params) > 1 and norm(c.args[0]) == fd_params[1]]
+    iso = [c for c in own_nodes(fd.node) if isinstance(c, ast.Call) and isinstance(c.func, ast.Attribute) and c.func.attr == "fromisoformat" and c.args and fd_params and norm(c.args[0]) == fd_params[0]]
+    if part and iso:
         r2.ok({"from_dict": "dt.fromisoformat(key) + _partition(value)"})
     else:
         r2.fail(f"{fd.short}:parse", fd.loc(), "Packet.from_dict no longer parses the key with dt.fromisoformat and the value with _partition")
